@@ -117,7 +117,22 @@ def op_vr(self, a, targets):
         elif kind == "deepcopy":
             r = copy.deepcopy(t)
         elif kind == "fibercopy":
-            f = src.root.copy()
+            pf = ob.find_fiber(src.root, dec_point(a.get("prefix", [])))
+            if pf is None:
+                raise Skip("prefix")
+            f = pf.copy(preserve_owner=bool(a.get("preserve", True)))
+            # C10: the copy shares nothing mutable with any tensor of the world - owners included
+            mine = ob.identity_set(f)
+            for s2, sl2 in self.slots.items():
+                common = set(mine) & set(ob.identity_set(sl2.t))
+                if common:
+                    kinds = sorted({mine[x] for x in common})
+                    self.V("C10", "C10.no-alias", "vr",
+                           f"Fiber.copy(preserve_owner={bool(a.get('preserve', True))}) of a fiber of slot {a['src']} "
+                           f"shares {len(common)} mutable objects of kind {kinds} with slot {s2}")
+            self.probe("fcopy_checked")
+            if f.getDepth() != len(t.ranks):
+                raise Skip("interior copy checked")
             r = Tensor.fromFiber(copy.deepcopy(t.getRankIds()), f, shape=None)
         elif kind in ("fadd", "fmul"):
             # elementwise + / * of two leaf fibers (or fiber and scalar); the result is a free fiber
@@ -197,6 +212,12 @@ def op_ro(self, a, targets):
         if (osl.depth - len(a.get("prefix2", []))) != (sl.depth - level):
             raise Skip("levels")
     info = {}
+    twin = None
+    if a.get("twin") and not sl.free and all(_flat_ok(x) for x in sl.shape):
+        try:
+            twin = copy.deepcopy(sl.t)
+        except Exception:
+            twin = None
     try:
         with contextlib.redirect_stdout(io.StringIO()):
             if kind == "iter":
@@ -378,7 +399,65 @@ def op_ro(self, a, targets):
         return {"status": f"exc:{type(e).__name__}", "msg": str(e)[:80]}
     self.probe("ro_ok:" + kind)
     info["kind"] = kind
+    if twin is not None:
+        _twin_differential(self, sl, twin, pre, kind, a)
     return info
+
+
+def _behaviour(t):
+    """what later callers can see of a tensor: the tree, every fiber's shape and active range, the offered
+    coordinates of an uncompressed walk"""
+    out = [ob.snapshot(t, with_ranks=False)["tree"], repr(t.getShape()), repr(t.getShape(authoritative=True))]
+    for d, fibs in enumerate(ob.levels(ob.root_of(t))):
+        for fb in fibs:
+            row = [d]
+            for fn in (fb.getActive, fb.getShape, fb.estimateShape):
+                try:
+                    row.append(repr(fn()))
+                except Exception as e:
+                    row.append("raised " + type(e).__name__)
+            try:
+                row.append([c for (c, _), _ in zip(fb.iterActiveShape(), range(40))])
+            except Exception as e:
+                row.append("raised " + type(e).__name__)
+            out.append(row)
+    return out
+
+
+def _twin_differential(self, sl, twin, pre, kind, a):
+    """C10, hidden state: a read-only operation leaves nothing behind that a later mutation could expose.
+    `twin` is a deep copy taken before the operation; a deep copy taken after it must behave the same once
+    both have grown by the same element."""
+    try:
+        after = copy.deepcopy(sl.t)
+    except Exception:
+        return
+    f = ob.find_fiber(ob.root_of(after), pre)
+    if f is None:
+        return
+    if any(not isinstance(c, int) or isinstance(c, bool) for c in f.coords):
+        return
+    top = (max(f.coords) if f.coords else 0) + 2
+    point = tuple(pre) + (top,) + (0,) * (sl.depth - len(pre) - 1)
+    res = []
+    for tt in (twin, after):
+        try:
+            ref = tt.getPayloadRef(*point)
+            ref <<= 7
+            res.append(_behaviour(tt))
+        except Exception as e:
+            res.append("raised " + type(e).__name__)
+    self.probe("twin_differential")
+    if res[0] != res[1]:
+        diff = ""
+        if isinstance(res[0], list) and isinstance(res[1], list):
+            for x, y in zip(res[0], res[1]):
+                if x != y:
+                    diff = f": untouched copy {repr(x)[:90]} vs copy taken after the operation {repr(y)[:90]}"
+                    break
+        self.V("C10", "C10.read-only-leaves-no-hidden-state", "ro_" + kind,
+               f"after {kind} on slot {a['slot']} at {pre}, a copy of the tensor grown by {point} behaves differently "
+               f"from a copy taken before the operation and grown the same way" + diff)
 
 
 # ---------------------------------------------------------------------------- generation
@@ -448,6 +527,12 @@ def gen_vr(self, g):
         a["levels"] = 1
     elif kind == "updatePayloads":
         a["k"] = g.randrange(1, 4)
+    elif kind == "fibercopy":
+        a["preserve"] = g.random() < 0.6
+        if nr >= 2 and g.random() < 0.35:
+            pre = self.existing_prefix(g, sl, g.randrange(1, nr))
+            if pre is not None:
+                a["prefix"] = enc_point(pre)
     elif kind in ("fadd", "fmul"):
         pre = self.existing_prefix(g, sl, nr - 1)
         if pre is None:
@@ -508,6 +593,8 @@ def gen_ro(self, g):
         a["rev"] = g.random() < 0.5
     if kind == "format":
         a["fmtmask"] = g.randrange(8)
+    if g.random() < 0.3:
+        a["twin"] = True
     return ["op", "ro", a]
 
 
